@@ -326,7 +326,7 @@ pub fn property() -> Property {
                 name: "random",
                 plan: |t| match t {
                     Tier::Quick => Plan::Random { cases: 300_000, max_len: 120 },
-                    Tier::Thorough => Plan::Random { cases: 1_500_000, max_len: 160 },
+                    Tier::Thorough => Plan::Random { cases: 7_500_000, max_len: 160 },
                 },
                 case: case_random,
                 min_classes: &[("wrapper-Alias", 3000), ("wrapper-While", 3000), ("predicate-UserFn", 3000), ("predicate-Equals", 3000)],
